@@ -4,8 +4,11 @@ Schemas of qxmpp stanza / nonza classes, transcribed from the C++ `toXml` + `fro
 (file and line of the pair given with each schema; /repo at the pinned tree).  Field order = the
 order in which `toXml` writes, so `encode` reproduces the library's own output form.
 
-(Where the code differs from what C01 demands the convention is a second schema ending in `Code` that
-models the code as it is; at the pinned tree (/repo 4885fb5) no class needs one.)
+Where the code differs from what C01 demands there is a second schema ending in `Code` that models the code as it is
+(not well-formed) next to the repaired one: today `MamQueryIqCode` / `MamQueryIq`.  Several C++ classes behave
+differently depending on a query type or on the namespace they are found in (PubSub IQ, service discovery, PubSub
+subscription): they have one schema per variant, each valid for the documents of that variant (the harness leaves the
+others out of that schema's correspondence and counts them).
 No proofs here, no Mathlib.
 -/
 namespace Qx.Xml.Codec.Classes
